@@ -714,6 +714,24 @@ func richTour(u *universe, w *hWorld) []func() *worldOp {
 			tweak(arrival(u.U[2], u.K[0], "MultiESDTNFTTransfer", be(1), u.Fung[2], []byte{0}, be(1), []byte("fn")), func(cs *callSpec) { setCT(cs); cs.Gas = 90000 }),
 		)
 	}
+	// (w) quantities that are EMPTY or zero (an empty argument reads as 0): every transfer function, to a holder of the same shard, to the
+	//     other shard; supply functions; then ordinary calls (whatever a zero-quantity call leaves behind in shared state shows in them)
+	for _, q := range [][]byte{nil, {0}, {0, 0}} {
+		l = append(l,
+			tx(u.U[0], u.U[0], "ESDTNFTTransfer", u.NFTs[1], be(1), q, u.U[1]),
+			tx(u.U[0], u.U[0], "ESDTNFTTransfer", u.NFTs[1], be(1), q, u.U[2]),
+			tx(u.U[0], u.U[1], "ESDTTransfer", u.Fung[0], q),
+			tx(u.U[0], u.U[2], "ESDTTransfer", u.Fung[0], q),
+			tx(u.U[0], u.U[0], "MultiESDTNFTTransfer", tkMulti(u.U[1], u.Fung[0], nil, q, u.NFTs[1], be(1), q)...),
+			tx(u.U[0], u.U[0], "MultiESDTNFTTransfer", tkMulti(u.U[2], u.NFTs[1], be(1), q)...),
+			tx(u.U[0], u.U[0], "ESDTNFTAddQuantity", u.NFTs[1], be(1), q),
+			tx(u.U[0], u.U[0], "ESDTNFTBurn", u.NFTs[1], be(1), q),
+			tx(u.U[0], u.U[0], "ESDTLocalMint", u.Fung[0], q),
+			tx(u.U[0], u.U[0], "ESDTLocalBurn", u.Fung[0], q),
+			tx(u.U[0], u.U[1], "ESDTTransfer", u.Fung[0], be(1)),
+			tx(u.U[0], u.U[0], "ESDTNFTTransfer", u.NFTs[1], be(1), be(1), u.U[1]),
+		)
+	}
 	// a pause addressed to the non-canonical system-account address, a transfer of the token on that shard, the unpause
 	l = append(l,
 		sysAs(u.SC, u.U[0], u.SysVar, "ESDTPause", u.Fung[2]),
